@@ -186,7 +186,10 @@ def replay_e2e(prop, v):
     if rc != 0:
         print(f"replay: the lexer does not build on the current tree: {errors[:3]}")
         return 1
-    reports = run_bins(d, 1, 600, {"VERIF_REPLAY_INPUT": v["input"], "VERIF_REPLAY_SCRIPT": ",".join(map(str, v.get("script_raw", [])))})
+    reports, hangs = run_bins(d, 1, 600, {"VERIF_REPLAY_INPUT": v["input"], "VERIF_REPLAY_SCRIPT": ",".join(map(str, v.get("script_raw", [])))})
+    if hangs:
+        print("replay: VIOLATION reproduced: the call does not return")
+        return 1
     viols = [x for r in reports for g in r["groups"] for x in g["violations"]]
     if viols:
         x = viols[0]
@@ -209,6 +212,7 @@ def run_bins(d, bins, timeout, extra_env=None):
             resource.setrlimit(resource.RLIMIT_AS, (b_, b_))
         procs.append(subprocess.Popen([exe], env=env, stdout=subprocess.PIPE, stderr=subprocess.PIPE, text=True, preexec_fn=limits))
     reports = []
+    hangs = []
     deadline = time.time() + timeout
     for b, p in enumerate(procs):
         try:
@@ -217,13 +221,21 @@ def run_bins(d, bins, timeout, extra_env=None):
             for q in procs:
                 q.kill()
             raise Machinery(f"batch binary b{b} exceeded the wall cap of {timeout}s")
+        last = out.strip().split("\n")[-1] if out.strip() else ""
+        if p.returncode == 3:
+            # the watchdog inside the binary: one next() call did not return
+            try:
+                hangs.append(json.loads(last)["hang"])
+                continue
+            except Exception:
+                raise Machinery(f"batch binary b{b} exited 3 without a hang report: {out[-300:]}")
         if p.returncode != 0:
             raise Machinery(f"batch binary b{b} crashed ({p.returncode}): {err[-1500:]}")
         try:
-            reports.append(json.loads(out.strip().split("\n")[-1]))
+            reports.append(json.loads(last))
         except Exception:
             raise Machinery(f"batch binary b{b}: unparsable output {out[-300:]}")
-    return reports
+    return reports, hangs
 
 
 SUM_KEYS = ["lexers", "executions", "steps", "rewinds", "errors", "customs", "switches", "eoi_matches", "latitude_used", "m_validated",
@@ -266,9 +278,25 @@ def run_e2e(prop, tier, build_timeout=900, run_timeout=1800):
         raise Machinery(f"batch crate for {prop} still does not build after excluding failing lexers")
     res["build_s"] = build_s
     res["lexers_total"] = total
-    res["lexers_built"] = total - len(exclude)
     t0 = time.time()
-    reports = run_bins(d, bins, run_timeout)
+    for attempt in range(4):
+        reports, hangs = run_bins(d, bins, run_timeout)
+        if not hangs:
+            break
+        # a call that never returns is an observation: record it, drop the lexer, run the others
+        for h in hangs:
+            gid = h["lexer"]
+            exclude.add(gid)
+            res["violations"].append({"lexer": gid, "family": table[gid][1], "definition": table[gid][2], "input": h["input"], "script_raw": h["script_raw"], "tier": tier,
+                                      "kind": "hang", "what": f"a next() call did not return within the watchdog limit (input of {h['input_len']} bytes)", "expected": "every call returns", "observed": "no return"})
+        d, total, bins = gen_batch(prop, tier, exclude)
+        rc, errors, secs, stderr = build_batch(d, build_timeout)
+        build_s += secs
+        if rc != 0:
+            raise Machinery("batch does not rebuild after excluding a hanging lexer: " + stderr[-500:])
+    else:
+        raise Machinery("more than 3 rounds of hanging lexers")
+    res["lexers_built"] = total - len(exclude)
     res["run_s"] = time.time() - t0
     agg = {k: 0 for k in SUM_KEYS}
     for r in reports:
